@@ -104,6 +104,14 @@ structure Tmpl where
   applyImports : Bool := false
   /-- after its marker the body calls the named template with this id (`xsl:call-template`; 0 = none) -/
   call : Nat := 0
+  /-- then the body does `<xsl:apply-templates select="." mode="wpMode"><xsl:with-param name="p">BODY</xsl:with-param>`
+  (0 = none); every rule prints the `p` it receives right after its marker -/
+  wpMode : Nat := 0
+  /-- BODY of that `xsl:with-param`: `xsl:apply-imports` (0) or `xsl:call-template` of the named template with this id -/
+  wpCall : Nat := 0
+  /-- the body is *only* `<xsl:call-template name="n‹call›"/>` (no marker, no parameter): the rule then runs the named
+  template directly (`eHasDirectTemplate`) -/
+  bare : Bool := false
   deriving DecidableEq, Repr, Inhabited
 
 /-- `XalanMatchPatternData`; `alt` is ghost bookkeeping (which alternative produced the entry) -/
@@ -506,43 +514,78 @@ inductive Tok where
   | text (s : String)
   deriving DecidableEq, Repr
 
-/-- what instantiating the chosen rule for one node produces, rule bodies being reduced to "write my marker, optionally
-`xsl:call-template` a named template (whose body is: marker, optionally `xsl:apply-imports`), optionally
-`xsl:apply-imports`"; no rule ⇒ the built-in rule of the node type (§5.8), as dispatched in
-`ElemTemplateElement::findTemplateToTransformChild`. `via = some t`: we are inside an `apply-imports` whose current
-template is `t`.  `callKeeps`: `xsl:call-template` leaves the current template rule unchanged (§5.6) — `true` in the
-specification; in the implementation model it is `!Generated.C10.callTemplateChangesCurrentRule`
-(`ElemTemplate::startElement` pushes the called template as current template in the unchanged code). -/
+/-- what instantiating the chosen rule for one node produces, rule bodies being reduced to: write my marker; copy the
+parameter `p` I was given; optionally `xsl:call-template` a named template (body: marker, optionally
+`xsl:apply-imports`); optionally `<xsl:apply-templates select="." mode="…">` with an `xsl:with-param` whose body is
+`xsl:apply-imports` or such a call; optionally `xsl:apply-imports`.  No rule ⇒ the built-in rule of the node type
+(§5.8; parameters are not passed on), as dispatched in `ElemTemplateElement::findTemplateToTransformChild`.
+`via = some t`: we are inside an `apply-imports` whose current template is `t`.
+`callKeeps`: `xsl:call-template` leaves the current template rule unchanged (§5.6) — `true` in the specification,
+`!Generated.C10.callTemplateChangesCurrentRule` in the implementation model; `directKeeps`: the same for a call that is
+the only child of its parent (run as a "direct template", `!Generated.C10.directCallTemplateChangesCurrentRule`).
+`wpCaller`: the value of an `xsl:with-param` is computed in the context of the *caller* (§11.6), so an
+`xsl:apply-imports` in it sees the caller's current mode (§5.6) — `true` in the specification,
+`!Generated.C10.withParamSeesCalleeMode` in the implementation model (`ElemApplyTemplates::startElement` pushed the new
+mode before its `xsl:with-param` children were evaluated). -/
 def processWith (doc : Array NodeRec) (findTop : Nat → Nat → Option Tmpl)
-    (findImp : Tmpl → Nat → Nat → Option Tmpl) (named : Nat → Option Tmpl) (callKeeps : Bool) :
-    Nat → Nat → Nat → Option Tmpl → List Tok
-  | 0, _, _, _ => [.text "FUEL"]
-  | f + 1, n, mode, via =>
+    (findImp : Tmpl → Nat → Nat → Option Tmpl) (named : Nat → Option Tmpl) (callKeeps directKeeps wpCaller : Bool) :
+    Nat → Nat → Nat → Option Tmpl → List Tok → List Tok
+  | 0, _, _, _, _ => [.text "FUEL"]
+  | f + 1, n, mode, via, param =>
     let found := match via with
       | none => findTop n mode
       | some cur => findImp cur n mode
     match found with
     | some t =>
+      if t.bare then
+        -- body = a single xsl:call-template: the named template is run directly with the rule as invoker
+        match named t.call with
+        | some nt =>
+          .rule nt.id ::
+            (if nt.applyImports then
+              processWith doc findTop findImp named callKeeps directKeeps wpCaller f n mode
+                (some (if directKeeps then t else nt)) []
+             else [])
+        | none => []
+      else
       let callPart : List Tok := match (if t.call = 0 then none else named t.call) with
         | some nt =>
           .rule nt.id ::
             (if nt.applyImports then
-              processWith doc findTop findImp named callKeeps f n mode (some (if callKeeps then t else nt))
+              processWith doc findTop findImp named callKeeps directKeeps wpCaller f n mode (some (if callKeeps then t else nt)) []
              else [])
         | none => []
-      .rule t.id :: callPart ++
-        (if t.applyImports then processWith doc findTop findImp named callKeeps f n mode (some t) else [])
+      let wpPart : List Tok :=
+        if t.wpMode = 0 then []
+        else
+          let bodyMode := if wpCaller then mode else t.wpMode
+          let body : List Tok :=
+            if t.wpCall = 0 then
+              processWith doc findTop findImp named callKeeps directKeeps wpCaller f n bodyMode (some t) []
+            else match named t.wpCall with
+              | some nt =>
+                -- the call is the only child of the xsl:with-param: direct template
+                .rule nt.id ::
+                  (if nt.applyImports then
+                    processWith doc findTop findImp named callKeeps directKeeps wpCaller f n bodyMode
+                      (some (if directKeeps then t else nt)) []
+                   else [])
+              | none => []
+          processWith doc findTop findImp named callKeeps directKeeps wpCaller f n t.wpMode none body
+      .rule t.id :: param ++ callPart ++ wpPart ++
+        (if t.applyImports then processWith doc findTop findImp named callKeeps directKeeps wpCaller f n mode (some t) [] else [])
     | none =>
       let r := doc.getD n default
       match r.kind with
-      | .element | .root => r.kids.flatMap fun c => processWith doc findTop findImp named callKeeps f c mode none
+      | .element | .root =>
+        r.kids.flatMap fun c => processWith doc findTop findImp named callKeeps directKeeps wpCaller f c mode none []
       | .text | .attribute => [.text r.text]
       | _ => []
 
 /-- number of "conflicts found" warnings issued while processing one node (same traversal as `processWith`) -/
 def warnsWith (doc : Array NodeRec) (findTop : Nat → Nat → Option Tmpl) (findImp : Tmpl → Nat → Nat → Option Tmpl)
-    (warnTop : Nat → Nat → Bool) (warnImp : Tmpl → Nat → Nat → Bool) (named : Nat → Option Tmpl) (callKeeps : Bool) :
-    Nat → Nat → Nat → Option Tmpl → Nat
+    (warnTop : Nat → Nat → Bool) (warnImp : Tmpl → Nat → Nat → Bool) (named : Nat → Option Tmpl)
+    (callKeeps directKeeps wpCaller : Bool) : Nat → Nat → Nat → Option Tmpl → Nat
   | 0, _, _, _ => 0
   | f + 1, n, mode, via =>
     let found := match via with
@@ -553,19 +596,46 @@ def warnsWith (doc : Array NodeRec) (findTop : Nat → Nat → Option Tmpl) (fin
       | some cur => if warnImp cur n mode then 1 else 0
     match found with
     | some t =>
+      if t.bare then
+        w + (match named t.call with
+          | some nt =>
+            if nt.applyImports then
+              warnsWith doc findTop findImp warnTop warnImp named callKeeps directKeeps wpCaller f n mode
+                (some (if directKeeps then t else nt))
+            else 0
+          | none => 0)
+      else
       let callPart : Nat := match (if t.call = 0 then none else named t.call) with
         | some nt =>
           if nt.applyImports then
-            warnsWith doc findTop findImp warnTop warnImp named callKeeps f n mode (some (if callKeeps then t else nt))
+            warnsWith doc findTop findImp warnTop warnImp named callKeeps directKeeps wpCaller f n mode
+              (some (if callKeeps then t else nt))
           else 0
         | none => 0
-      w + callPart +
-        (if t.applyImports then warnsWith doc findTop findImp warnTop warnImp named callKeeps f n mode (some t) else 0)
+      let wpPart : Nat :=
+        if t.wpMode = 0 then 0
+        else
+          let bodyMode := if wpCaller then mode else t.wpMode
+          let body : Nat :=
+            if t.wpCall = 0 then
+              warnsWith doc findTop findImp warnTop warnImp named callKeeps directKeeps wpCaller f n bodyMode (some t)
+            else match named t.wpCall with
+              | some nt =>
+                if nt.applyImports then
+                  warnsWith doc findTop findImp warnTop warnImp named callKeeps directKeeps wpCaller f n bodyMode
+                    (some (if directKeeps then t else nt))
+                else 0
+              | none => 0
+          body + warnsWith doc findTop findImp warnTop warnImp named callKeeps directKeeps wpCaller f n t.wpMode none
+      w + callPart + wpPart +
+        (if t.applyImports then
+          warnsWith doc findTop findImp warnTop warnImp named callKeeps directKeeps wpCaller f n mode (some t) else 0)
     | none =>
       let r := doc.getD n default
       match r.kind with
       | .element | .root =>
-        w + (r.kids.map fun c => warnsWith doc findTop findImp warnTop warnImp named callKeeps f c mode none).sum
+        w + (r.kids.map fun c =>
+          warnsWith doc findTop findImp warnTop warnImp named callKeeps directKeeps wpCaller f c mode none).sum
       | _ => w
 
 end XalanModel.C10
